@@ -72,10 +72,38 @@ func engField(e *engine.Engine, name string) reflect.Value {
 	return reflect.NewAt(f.Type(), unsafe.Pointer(f.UnsafeAddr())).Elem() // readable copy of an unexported field
 }
 
+// engCfgFieldsOK: the unexported fields this file reads exist under the names and kinds it expects. If a refactoring has renamed
+// them the stream is skipped (and says so in the evidence) rather than turned into an alarm: what it checks is then covered only
+// by the behavioural ops (`reanalyse`, `newgames`, `noise`, `twin`).
+func engCfgFieldsOK() bool {
+	t := reflect.TypeOf(engine.Engine{})
+	want := map[string][]reflect.Kind{"tt": {reflect.Interface}, "noise": {reflect.Int}, "searches": {reflect.Int64}, "active": {reflect.Interface, reflect.Ptr}}
+	for name, kinds := range want {
+		f, ok := t.FieldByName(name)
+		if !ok {
+			return false
+		}
+		okKind := false
+		for _, k := range kinds {
+			if f.Type.Kind() == k {
+				okKind = true
+			}
+		}
+		if !okKind {
+			return false
+		}
+	}
+	f, ok := reflect.TypeOf(eval.Random{}).FieldByName("limit")
+	return ok && f.Type.Kind() == reflect.Int
+}
+
 func init() {
 	registerEval("engcfg", func(a []string) string {
 		if len(a) < 4 || a[3] != ";" {
 			return "bad-op"
+		}
+		if !engCfgFieldsOK() {
+			return "HARNESS-skipped: the unexported fields of engine.Engine / eval.Random have other names or kinds"
 		}
 		d, _ := strconv.Atoi(a[0])
 		h, _ := strconv.Atoi(a[1])
@@ -279,6 +307,11 @@ func init() {
 		n := 60
 		if thorough {
 			n = 3000
+		}
+		if !engCfgFieldsOK() {
+			o.Count("engcfg:SKIPPED-unexported-fields-renamed")
+			o.info["engcfg"] = "skipped: the unexported fields of engine.Engine / eval.Random have other names or kinds than the harness reads"
+			return
 		}
 		curated := []string{
 			"engcfg 2 1 0 ; a4 x a- x h0 r1 a- x",
